@@ -1,4 +1,5 @@
 (* Props/C02.v — property C02: each scenario attempt emits the canonical, declaration-ordered event sequence. *)
+From CV Require Proofs.ReviewP2.
 From CV Require Proofs.Compose2.
 From CV Require Import Model.Base Model.Events Model.Attempt Model.AttemptSpec Proofs.BaseP Proofs.AttemptP.
 From CV Require Model.Sched Proofs.SchedP9.
@@ -60,3 +61,42 @@ Theorem C02_attempt_in_flight_has_emitted_a_canonical_prefix :
       wf_events (is_some (ai_before (inp k))) (is_some (ai_after (inp k))) (all_decl (inp k)) full = true.
 Proof. exact Compose2.canonical_prefix_in_every_interleaving_faithful. Qed.
 Print Assumptions C02_attempt_in_flight_has_emitted_a_canonical_prefix.
+
+
+(* ---------- THE OUTCOME -> EVENT MAPPING OF THE PROPERTY TEXT (review finding M8) ----------
+   `wf_events` takes only the declared steps, never their outcomes. `ReviewP2.RB.spec_events i` is written from the
+   property text: `step_result`: no matching definition -> Skipped; several -> Failed as ambiguous; a match that panics ->
+   Failed with the payload; a match when the World cannot be created -> Failed with the World's payload; otherwise Passed;
+   execution stops after the first non-passed step; a failure event precedes the after-hook events. *)
+Theorem C02_events_are_determined_by_the_outcomes :
+  forall i, ao_events (run_attempt i) = ReviewP2.RB.spec_events i.
+Proof. exact ReviewP2.C02_events_are_determined_by_the_outcomes. Qed.
+Print Assumptions C02_events_are_determined_by_the_outcomes.
+
+Theorem C02_outcome_event_mapping :
+  forall i bev we0 (pre : list ReviewP2.RB.tstep) bg st o (post : list ReviewP2.RB.tstep),
+    ReviewP2.RB.before_lets_steps_run i = Some (bev, we0) ->
+    ReviewP2.RB.tagged i = pre ++ (bg, (st, o)) :: post ->
+    ReviewP2.RB.passes we0 (ai_world i) pre = true ->
+    let a := ScStarted :: bev ++ ReviewP2.RB.passed_evs pre in
+    let tail := AttemptP.after_evs (ai_after i) ++ [ScFinished] in
+    match ReviewP2.RB.step_result (we0 || negb (ReviewP2.RB.is_nil pre)) (ai_world i) o with
+    | StPassed => exists b, ao_events (run_attempt i) = a ++ step_ev bg st StStarted :: step_ev bg st StPassed :: b
+    | StSkipped => ao_events (run_attempt i) = a ++ step_ev bg st StStarted :: step_ev bg st StSkipped :: tail
+    | StFailed k => ao_events (run_attempt i) = a ++ step_ev bg st StStarted :: step_ev bg st (StFailed k) :: tail
+    | StStarted => False
+    end.
+Proof. exact ReviewP2.C02_outcome_event_mapping. Qed.
+Print Assumptions C02_outcome_event_mapping.
+
+(* the executable form (also demanded of the REAL runner's events, Check/AttemptCheck.v) is stronger than `wf_events`: the
+   reviewer's list — an after hook that panics reported as Passed — is accepted by `wf_events` and rejected by it *)
+Theorem C02_events_match_outcomes :
+  forall i, ReviewP2.RB.events_match_outcomes i (ao_events (run_attempt i)) = true.
+Proof. exact ReviewP2.C02_events_match_outcomes. Qed.
+Print Assumptions C02_events_match_outcomes.
+
+Example C02_outcome_mapping_is_discriminating :
+  ReviewP2.RB.events_match_outcomes ReviewP2.RB.i8 ReviewP2.RB.witness8 = false /\
+  ReviewP2.RB.witness8 <> ao_events (run_attempt ReviewP2.RB.i8).
+Proof. exact ReviewP2.C02_reviewers_witness_is_not_produced. Qed.
